@@ -217,8 +217,10 @@ def run(ctx):
                 if a == b == "Number":
                     # exact: integers are compared as integers (i64, then u64), f64 only for what is left —
                     # through f64 alone distinct integers beyond 2^53 would be the same element
-                    acc = set(x.rsplit("::", 1)[1] for x in o.detail.get("int_accessors", []))
-                    good = o.kind in ("INT-EQ", "MIXED-INT/FLOAT") and {"as_i64", "as_u64"} <= acc and o.detail.get("ops") == ["Eq"] and not o.detail.get("ne_calls")
+                    accl = [x.rsplit("::", 1)[1] for x in o.detail.get("int_accessors", [])]
+                    acc = set(accl)
+                    good = (o.kind in ("INT-EQ", "MIXED-INT/FLOAT") and {"as_i64", "as_u64"} <= acc and accl.count("as_i64") >= 2 and accl.count("as_u64") >= 2
+                            and o.detail.get("ops") == ["Eq"] and not o.detail.get("ne_calls") and not o.detail.get("casts"))
                     want = "exact numeric comparison (as_i64 and as_u64 pairs compared as integers, f64 only otherwise)"
                 elif a == b and a in ("Array", "Object"):
                     good = o.kind.startswith("REC")
